@@ -61,9 +61,9 @@ func (c02Engine) Name() string     { return "envsim/constexpr-timing-and-rewrite
 func (c02Engine) Level() string    { return "exploration" }
 func (c02Engine) Count(tier string) int {
 	if tier == "thorough" {
-		return 200000
+		return 2000000
 	}
-	return 8000
+	return 80000
 }
 func (c02Engine) Rule() string {
 	return "Scenario i from H(VERIF_SEED,'C02',i): a typed random program of the mini-expr fragment biased toward shapes in which a rewrite fires (constant arithmetic at depth, literal arrays, membership in literal arrays and ranges, constant ranges, calls of pure functions with constant, partly constant and nested-constant arguments), an environment value, a subset of the pure functions {CI,CS,CB,C64} marked ConstExpr, pure or stateful other functions, and with probability 1/2 a poisoned argument tuple of a pure function taken from the fault-free journal (the function panics whenever called with it - at compile or run time). The source is compiled three ways: Optimize(true)+marks, Optimize(false)+marks, Optimize(true) without marks; each program runs Runs times on identical fresh worlds. One evaluation = one run of one program. Non-trivial = the optimised program differs from the unoptimised one (a rewrite fired) or a compile-time call happened; distinct = distinct (source, env, marks, poison, stateful) signatures."
